@@ -424,6 +424,96 @@ def gen_object_session(rng):
     return rng.choice(['big=4e20', 'big=4e20', 'big=4e20', 'gc=5;big=4e20']), srcs, reqs
 
 
+def gen_shared_value(rng, idx):
+    """one shared library value with fields a, b, c (b reads a, c reads b and a through `self`, so all
+    are late-bound), built by one of the object-construction kinds.  Returns (jsonnet, is_function)"""
+    ea = str(rng.choice([1, 2, 3]))
+    eb = rng.choice(['self.a + 1', 'self.a * 2', 'self.a + %d' % rng.randint(2, 9)])
+    ec = rng.choice(['self.b + self.a', 'self.b * 2', '[self.a, self.b]', 'self.b - 1'])
+    hid = rng.choice([':', ':', '::'])
+    lit = '{ a: %s, b: %s, c%s %s }' % (ea, eb, hid, ec)
+    kind = rng.choice(['lit', 'comp', 'comp', 'plus', 'plussuper', 'remove', 'mergepatch', 'mapwithkey', 'fnresult',
+                       'compplus', 'compsuper', 'nested'])
+    if kind == 'lit':
+        return lit, kind
+    if kind == 'comp':
+        return ('{ [k]: if k == "a" then %s else if k == "b" then %s else %s for k in ["a", "b", "c"] }' % (ea, eb, ec)), kind
+    if kind == 'plus':
+        return '{ a: %s, c%s %s } + { b: %s }' % (ea, hid, ec, eb), kind
+    if kind == 'plussuper':
+        return '{ a: %s, b: %s } + { b: super.b + self.a, c%s %s }' % (ea, eb, hid, ec), kind
+    if kind == 'remove':
+        return 'std.objectRemoveKey({ a: %s, b: %s, c%s %s, d: self.a }, "d")' % (ea, eb, hid, ec), kind
+    if kind == 'mergepatch':
+        return 'std.mergePatch({ a: %s, d: 0 }, { d: null }) + { b: %s, c%s %s }' % (ea, eb, hid, ec), kind
+    if kind == 'mapwithkey':
+        return 'std.mapWithKey(function(k, v) v, { a: %s }) + { b: %s, c%s %s }' % (ea, eb, hid, ec), kind
+    if kind == 'fnresult':
+        return '(function(v) { a: v, b: %s, c%s %s })(%s)' % (eb, hid, ec, ea), kind
+    if kind == 'compplus':
+        return ('{ [k]: if k == "a" then %s else %s for k in ["a", "b"] } + { c%s %s }' % (ea, eb, hid, ec)), kind
+    if kind == 'compsuper':
+        return ('{ a: %s, b: 1 } + { [k]: if k == "b" then super.b + self.a else %s for k in ["b", "c"] }' % (ea, ec)), kind
+    return '{ a: %s, b: %s, c%s %s, inner: { [k]: $.b + 1 for k in ["p"] } }' % (ea, eb, hid, ec), kind
+
+
+DERIVE_TEMPLATES = [
+    # (1) force fields of the shared value
+    '{V}.a', '{V}.b', '{V}.c', '{V}', 'std.objectFields({V})', '{V}.b + {V}.c',
+    # (2) derive a new object from the shared value and read late-bound fields
+    '({V} + { a: 10 }).b', '({V} + { a: 10 }).c', '({V} + { a: 10 })', '({ a: 10, z: 0 } + {V}).b', '({V} + { b: 100 }).c',
+    '({V} + { a+: 5 }).b', '({V} { a: 7 }).c', '({V} + { b: super.b + 1000 }).c', '({V} + { b: super.b + 1000 }).b',
+    'std.objectRemoveKey({V}, "c").b', 'std.objectRemoveKey({V}, "a").b', 'std.objectRemoveKey({V} + { a: 10 }, "c")',
+    'std.objectRemoveKey({V}, "b") + { b: 50 }', 'std.mergePatch({V}, { a: 10 }).b', 'std.mergePatch({V}, { b: null })',
+    'std.mapWithKey(function(k, v) v, {V} + { a: 10 }).b', '({V} + {W}).c', '({V} + {W} + { a: 20 }).b',
+    '[({V} + { a: i }).b for i in [10, 20]]', '{V}.b + ({V} + { a: 10 }).b', '(({V} + { a: 10 }) + { a: 30 }).c',
+    'std.get({V} + { a: 10 }, "b")', '({V} + { a: 10 })["b"]', 'local d = {V} + { a: 10 }; [d.b, {V}.b, d.c]',
+]
+
+
+def gen_derive_session(rng):
+    """shared library values of every construction kind; requests force some of their fields, LATER
+    requests derive new objects from the same shared values (extend on either side, override a field
+    another field reads through self/super, remove a key, mergePatch, mapWithKey) and read late-bound fields"""
+    nv = rng.randint(2, 3)
+    vals = [gen_shared_value(rng, i) for i in range(nv)]
+    lib = '{ ' + ', '.join('v%d: %s' % (i, v[0]) for i, v in enumerate(vals)) + \
+          ', mk:: function(a) { a: a, b: self.a + 1, c: self.b * 2 }, ext:: function(o, a=10) (o + { a: a }).b }'
+    srcs = [lib]
+    for t in rng.sample(DERIVE_TEMPLATES, rng.randint(4, 7)):
+        v, w = rng.randrange(nv), rng.randrange(nv)
+        srcs.append('local L = import "s0"; ' + t.replace('{V}', 'L.v%d' % v).replace('{W}', 'L.v%d' % w))
+    srcs.append('local L = import "s0"; L.ext')
+    srcs.append('local L = import "s0"; L.mk')
+    fext, fmk = len(srcs) - 2, len(srcs) - 1
+    nclients = len(srcs)
+    vsrc = []
+    for i in range(nv):
+        vsrc.append(len(srcs))
+        srcs.append('local L = import "s0"; L.v%d' % i)
+    srcs.append('5')
+    five = len(srcs) - 1
+    reqs = []
+    for _ in range(rng.randint(3, 8)):
+        r = rng.random()
+        k = rng.randrange(1, nclients - 2)
+        lim = rng.choice(['', '', '', '', '@%x' % rng.randint(3, 40)])
+        if r < 0.08:
+            reqs.append('G')
+        elif r < 0.13:
+            reqs.append('N%x' % k)
+        elif r < 0.6:
+            reqs.append('E%x%s' % (k, lim))
+        elif r < 0.8:
+            reqs.append('M%x:%d%s' % (k, rng.randint(0, 1), lim))
+        elif r < 0.92:
+            reqs.append('C%x:%x:%s' % (fext, rng.choice(vsrc), rng.choice(['', 'a=%x' % five])))
+        else:
+            reqs.append('C%x:%x:' % (fmk, five))
+    run_kinds = '+'.join(sorted(set(v[1] for v in vals)))
+    return rng.choice(['', '', 'gc=3']), srcs, reqs, run_kinds
+
+
 def src_field(srcs):
     return ';'.join(hxl(list(s.encode())) for s in srcs)
 
@@ -607,7 +697,10 @@ def corpus_machines():
 
 def check(run):
     rng = vlib.rng_for(run.seed, ID)
-    run.rule = ('object sessions: an inheritance chain of 1..3 layers with assertions in any subset of the layers (constant, on an overridable '
+    run.rule = ('derive sessions: 2..3 shared library values with late-bound fields a/b/c built by literal / comprehension / + / super / '
+                'objectRemoveKey / mergePatch / mapWithKey / function result / nested, 3..8 requests that force fields and, later, derive new '
+                'objects from the same values (extend either side, override, remove, patch; also through eval_call) and read late-bound fields. '
+                'object sessions: an inheritance chain of 1..3 layers with assertions in any subset of the layers (constant, on an overridable '
                 'field, on a recursion whose depth is a field), kept alive as a library field / inside another object / in closures, read by '
                 '3..8 eval / manifest / eval_call requests with limits 2..400; a fresh overflow is compared under a large limit. '
                 'sessions: a library source + client sources importing it + argument sources, 2..8 requests (load / new load / eval / '
@@ -653,6 +746,13 @@ def check(run):
     run_sessions(run, impl_exe, sessions, 's')
     osessions = [gen_object_session(rng) for _ in range(8000 if thorough else 550)]
     run_sessions(run, impl_exe, osessions, 'o')
+    dsessions = []
+    for _ in range(8000 if thorough else 600):
+        opts, srcs, reqs, kinds = gen_derive_session(rng)
+        for kd in kinds.split('+'):
+            run.count('derive_' + kd)
+        dsessions.append((opts, srcs, reqs))
+    run_sessions(run, impl_exe, dsessions, 'd')
 
 
 def replay(run, path):
